@@ -646,7 +646,7 @@ class BaseMatcher:
         logger.info("Build lattice in {} seconds".format(t_delta))
 
         # Backtrack to find best path
-        if not self.early_stop_idx:
+        if self.early_stop_idx is None:  # index 0 is a valid early stop
             one_no_stop = False
             for m in self.lattice[len(path) - 1].values_all():  # todo: could be values(0) ?
                 if not m.stop:
